@@ -140,11 +140,15 @@ impl Transformation<String> {
   ) -> Result<Transformation<MetaVariable>, TransformError> {
     use Transformation as T;
     Ok(match self {
-      T::Replace(r) => T::Replace(Replace {
-        source: parse_meta_var(&r.source, lang)?,
-        replace: r.replace.clone(),
-        by: r.by.clone(),
-      }),
+      T::Replace(r) => {
+        // `replace` is compiled for every match, reject invalid regex when the rule is loaded
+        Regex::new(&r.replace).map_err(|e| TransformError::InvalidRegex(r.replace.clone(), e))?;
+        T::Replace(Replace {
+          source: parse_meta_var(&r.source, lang)?,
+          replace: r.replace.clone(),
+          by: r.by.clone(),
+        })
+      }
       T::Substring(s) => T::Substring(Substring {
         source: parse_meta_var(&s.source, lang)?,
         start_char: s.start_char,
